@@ -534,12 +534,22 @@ func c01Shape(w *run.Worker, st *c01State, sh gen.Expr, n, nPos int) {
 		}
 	}
 	// join condition: leaves alternate between the two sides
-	if n <= nPos {
+	for pattern := 0; pattern < 4 && n <= nPos; pattern++ {
+		// which side each leaf comes from: alternating, all left, all right, first left then right
 		jl := make([]typedLeaf, len(leaves))
 		jtree := gen.Instantiate(sh, func(i int) gen.Expr {
 			side := "$left"
-			if i%2 == 1 {
+			switch pattern {
+			case 0:
+				if i%2 == 1 {
+					side = "$right"
+				}
+			case 2:
 				side = "$right"
+			case 3:
+				if i > 0 {
+					side = "$right"
+				}
 			}
 			jl[i] = typedLeaf{side + "." + leaves[i].name, leaves[i].typ}
 			return &gen.Name{Parts: []gen.Ident{{Name: side}, {Name: leaves[i].name}}}
